@@ -1,6 +1,7 @@
 package main
 
 import (
+	"sort"
 	"bytes"
 	"context"
 	"fmt"
@@ -150,6 +151,9 @@ func solveOne(o *Obl, file string, timeout int, tier string) {
 		}
 	}
 	o.Agree = agree
+	if o.Result != want && o.Result != "sat" && !o.Cover {
+		trySplit(o, file, timeout)
+	}
 	if o.Result != want && o.Result != "sat" {
 		// No verdict: look for a candidate counterexample with the quantified assumptions dropped.
 		// Such a model is only a candidate; it is trusted only if the replay reproduces it on the real code.
@@ -164,6 +168,47 @@ func solveOne(o *Obl, file string, timeout int, tier string) {
 			o.Model = ou
 		}
 	}
+}
+
+// trySplit retries an undecided obligation conjunct by conjunct (see split.go).
+func trySplit(o *Obl, file string, timeout int) {
+	parts := splitGoal(o.Goal)
+	if len(parts) < 2 || len(parts) > 40 {
+		return
+	}
+	used := map[string]bool{}
+	for i, g := range parts {
+		po := *o
+		po.Goal = g
+		pf := fmt.Sprintf("%s.part%d.smt2", strings.TrimSuffix(file, ".smt2"), i+1)
+		renderMu.Lock()
+		txt := po.script(true)
+		renderMu.Unlock()
+		os.WriteFile(pf, []byte(txt), 0o644)
+		done := false
+		for _, sp := range solvers {
+			rs, ou, se := runSolver(sp, pf, timeout)
+			o.Secs += se
+			if rs == "unsat" {
+				used[sp.name] = true
+				done = true
+				break
+			}
+			if rs == "sat" {
+				o.Result, o.Solver, o.Out, o.Script = "sat", sp.name, ou, pf
+				return
+			}
+		}
+		if !done {
+			return
+		}
+	}
+	var names []string
+	for n := range used {
+		names = append(names, n)
+	}
+	sort.Strings(names)
+	o.Result, o.Solver = "unsat", fmt.Sprintf("split(%d):%s", len(parts), strings.Join(names, "+"))
 }
 
 // stripQuantified drops every assertion that contains a quantifier.
